@@ -32,6 +32,7 @@ CONSTANTS
   MaxVec,      \* vectors 0..MaxVec are observed
   K,           \* size of the key pool (keys 1..K)
   Batches,     \* <<first key, length>> pairs offered to addNextEpochNodes
+  Dups,        \* subset of BOOLEAN: TRUE = the batch lists its first key once more at its end (A,B,D,A)
   RepSeqs,     \* REP lists offered to commitContainerListUpdate
   Msgs,        \* messages
   SigAlphabet, \* signatures the exhaustive configurations build matrices from
@@ -39,7 +40,8 @@ CONSTANTS
   MaxMV,       \* at most this many vectors per matrix (exhaustive configurations)
   SignerSets,
   MaxLen,      \* exploration bound on the length of a vector
-  Dev          \* deviation switches: "DupSig" = one member's signatures are counted as often as they are repeated
+  Dev          \* deviation switches: "DupSig" = one member's signatures are counted as often as they are repeated;
+               \* "PosCount" = counted members are remembered by their position in the vector, so a key listed twice counts twice
 
 Nil == "nil"
 Vecs == 0..MaxVec
@@ -51,7 +53,7 @@ vars  == <<pend, comm, reps, meta, api, ev>>
 
 Event(act, S, c, v, from, len, bk, rs, m, sigs, res, ret, ntf) ==
   [act |-> act, S |-> S, c |-> c, v |-> v, from |-> from, len |-> len, bk |-> bk, rs |-> rs, m |-> m, sigs |-> sigs,
-   res |-> res, ret |-> ret, ntf |-> ntf]
+   res |-> res, ret |-> ret, ntf |-> ntf, dup |-> FALSE]
 
 (***************************************************************************)
 (* counterToBytes / counterFromBytes                                       *)
@@ -80,7 +82,10 @@ ASSUME CounterLemma
 (***************************************************************************)
 (* Methods                                                                 *)
 (***************************************************************************)
-KeysOf(from, len) == [i \in 1..len |-> ((from + i - 2) % K) + 1]
+\* the keys of a batch: len consecutive keys of the pool starting at from; with dup the first of them is listed again
+\* at the end.  Nothing de-duplicates a roster: a key may occur twice in a batch, in two batches of one vector and
+\* in two vectors; it is returned as often as it was submitted, but it is ONE member.
+KeysOf(from, len, dup) == [i \in 1..len |-> ((from + i - 2) % K) + 1] \o (IF dup /\ len > 0 THEN <<((from - 1) % K) + 1>> ELSE <<>>)
 
 ApiOf(C, R) == [nodes |-> C, reps |-> R]
 
@@ -89,16 +94,17 @@ Fault(act, S, c, v, from, len, bk, rs, m, sigs) ==
   /\ ev' = Event(act, S, c, v, from, len, bk, rs, m, sigs, "FAULT", "null", <<>>)
 
 \* AddNextEpochNodes(cID, placementVector, publicKeys); bk: one of the keys is not 33 bytes long
-Add(S, c, v, from, len, bk) ==
+Add(S, c, v, from, len, bk, dup) ==
   IF /\ v < 255                                        \* ErrorTooBigNumberOfNodes
      /\ v \in Vecs
      /\ v > 0 => pend[c][v - 1] # <<>>                 \* validatePlacementIndex
      /\ "ALPHA" \in S                                  \* CheckAlphabetWitness
      /\ ~bk                                            \* ErrorInvalidPublicKey
-  THEN /\ pend' = [pend EXCEPT ![c][v] = @ \o KeysOf(from, len)]     \* counter continues after the last key
+  THEN /\ pend' = [pend EXCEPT ![c][v] = @ \o KeysOf(from, len, dup)]     \* counter continues after the last key
        /\ UNCHANGED <<comm, reps, meta>>
-       /\ ev' = Event("add", S, c, v, from, len, bk, <<>>, Nil, <<>>, "HALT", "null", <<>>)
-  ELSE Fault("add", S, c, v, from, len, bk, <<>>, Nil, <<>>)
+       /\ ev' = [Event("add", S, c, v, from, len, bk, <<>>, Nil, <<>>, "HALT", "null", <<>>) EXCEPT !.dup = dup]
+  ELSE /\ UNCHANGED state
+       /\ ev' = [Event("add", S, c, v, from, len, bk, <<>>, Nil, <<>>, "FAULT", "null", <<>>) EXCEPT !.dup = dup]
 
 \* CommitContainerListUpdate(cID, replicas)
 Commit(S, c, rs) ==
@@ -120,9 +126,10 @@ NodesOf(c, i) == IF i \in Vecs THEN comm[c][i] ELSE <<>>
 RECURSIVE SigLoop(_, _, _, _, _, _, _)
 SigLoop(nodes, msg, ss, j, cnt, m, used) ==
   IF j > Len(ss) THEN FALSE
-  ELSE LET hits == {p \in 1..Len(nodes) : SigValid(ss[j], nodes[p], msg) /\ ("DupSig" \in Dev \/ nodes[p] \notin used)}
+  ELSE LET tok(p) == IF "PosCount" \in Dev THEN p ELSE nodes[p]      \* what is remembered of a counted member: its key
+           hits == {p \in 1..Len(nodes) : SigValid(ss[j], nodes[p], msg) /\ ("DupSig" \in Dev \/ tok(p) \notin used)}
            cnt2 == IF hits # {} THEN cnt + 1 ELSE cnt
-           used2 == IF hits # {} THEN used \cup {nodes[CHOOSE p \in hits : \A q \in hits : p <= q]} ELSE used
+           used2 == IF hits # {} THEN used \cup {tok(CHOOSE p \in hits : \A q \in hits : p <= q)} ELSE used
        IN  IF cnt2 = m THEN TRUE ELSE SigLoop(nodes, msg, ss, j + 1, cnt2, m, used2)
 
 RECURSIVE RepLoop(_, _, _, _)
@@ -160,7 +167,7 @@ Matrices == SeqsUpTo(SeqsUpTo(SigAlphabet, MaxSigs), MaxMV)
 
 NextOf(P(_), PS(_), PM(_)) ==
   /\ \/ \E S \in PS(SignerSets), c \in P(Cids), v \in P(Vecs), b \in P(Batches), bk \in P({FALSE, FALSE, TRUE}) :
-          Add(S, c, v, b[1], b[2], bk /\ b[2] > 0)
+          \E dup \in P(Dups) : Add(S, c, v, b[1], b[2], bk /\ b[2] > 0, dup /\ b[2] > 0)
      \/ \E S \in PS(SignerSets), c \in P(Cids), rs \in P(RepSeqs) : Commit(S, c, rs)
      \/ \E c \in P(Cids), m \in P(Msgs) : \E sg \in PM(c) : Verify(c, m, sg)
      \/ \E S \in P({T \in SignerSets : "ALPHA" \notin T}), c \in P(Cids), m \in P(Msgs) : \E sg \in PM(c) : Submit(S, c, m, sg)
@@ -184,17 +191,20 @@ Bounded == \A c \in Cids, v \in Vecs : Len(pend[c][v]) <= MaxLen
 GInit == [pend |-> [c \in Cids |-> Empty], comm |-> [c \in Cids |-> Empty], reps |-> [c \in Cids |-> <<>>]]
 GNext(g, e) ==
   IF e.res # "HALT" THEN g
-  ELSE IF e.act = "add" THEN [g EXCEPT !.pend[e.c][e.v] = @ \o KeysOf(e.from, e.len)]
+  ELSE IF e.act = "add" THEN [g EXCEPT !.pend[e.c][e.v] = @ \o KeysOf(e.from, e.len, e.dup)]
   ELSE IF e.act = "commit" THEN [g EXCEPT !.comm[e.c] = g.pend[e.c], !.pend[e.c] = Empty, !.reps[e.c] = e.rs]
   ELSE g
 
 \* nodes(cid, i) and replicasNumbers(cid) return exactly, in submission order, what the last commit fixed
+\* (a key submitted twice is returned twice, at its two positions: the statement says "exactly ... the keys
+\* accumulated by addNextEpochNodes", so a roster that silently drops or merges repeats is flagged here)
 C14_Roster(g2) == /\ \A c \in Cids, v \in Vecs : api'.nodes[c][v] = g2.comm[c][v]
                   /\ \A c \in Cids : api'.reps[c] = g2.reps[c]
 \* a commit empties the pending roster (raw storage)
 C14_CommitEmpties(e) == e.act = "commit" /\ e.res = "HALT" => pend'[e.c] = Empty
 \* verify / submit accept only if every vector has REP_i distinct members with a valid signature of the message
 Accepted(e) == (e.act = "verify" /\ e.res = "HALT" /\ e.ret = "true") \/ (e.act = "submit" /\ e.res = "HALT")
+\* members are KEYS: a key listed at several positions of the vector is one member
 Members(g, c, i) == IF i \in Vecs THEN {g.comm[c][i][p] : p \in 1..Len(g.comm[c][i])} ELSE {}
 Signers(g, e, i) == {k \in Members(g, e.c, i - 1) : \E j \in 1..Len(e.sigs[i]) : SigValid(e.sigs[i][j], k, e.m)}
 C14_Sound(g, e) ==
